@@ -1,5 +1,6 @@
 import TarpcModel.Driver.Show
 import TarpcModel.Monitors.Server
+import TarpcModel.Server.Settle
 /- Family `srv`: one server connection (Requests stream + executions) over a SimTransport. -/
 namespace TarpcModel.Driver
 open TarpcModel TarpcModel.Server
@@ -42,8 +43,18 @@ def parseSOp (toks : List String) : Option SOp :=
   | _ => none
 
 def srvStep (c : Server.Sys) (toks : List String) : Server.Sys × List String :=
+  if toks == ["settle"] then
+    let (c', st) := Server.settle { c with s := { c.s with obs := [] } }
+    let lines := c'.s.obs.reverse.map showObs
+    let verdict := if st.isEmpty then "settled ok" else "settled stuck " ++ " ".intercalate st
+    ({ c' with s := { c'.s with obs := [] } }, lines ++ [verdict])
+  else
   match parseSOp toks with
-  | some op => let (c', os) := Server.stepOp c op; (c', os.map showObs)
+  | some op =>
+      let (c', os) := Server.stepOp c op
+      -- a stream that yielded an item has not parked: its consumer polls it again
+      let c' := if c'.s.nextVis > c.s.nextVis && !c'.s.dropped && c'.s.done.isNone then { c' with s := { c'.s with woken := true } } else c'
+      (c', os.map showObs)
   | none => (c, ["bad-op"])
 
 structure SrvMon where
@@ -58,6 +69,7 @@ structure SrvMon where
   c12 : Server.Mon Bool := { st := false }
   c14 : Server.Mon Client.C14St := { st := {} }
   c18 : Server.Mon Unit := { st := () }
+  c02 : Option String := none
   garbled : Option String := none
 
 def SrvMon.feed (m : SrvMon) (e : SEv) : SrvMon :=
@@ -71,7 +83,7 @@ def SrvMon.feed (m : SrvMon) (e : SEv) : SrvMon :=
 def SrvMon.verdict (m : SrvMon) : Option String :=
   let fs := [("C04", m.c04.bad), ("C06", m.c06.bad.orElse fun _ => m.c06s.bad), ("C08", m.c08.bad), ("C09", m.c09.bad),
              ("C10", m.c10.bad), ("C11", m.c11.bad), ("C12", m.c12.bad), ("C14", m.c14.bad), ("C18", m.c18.bad),
-             ("PARSE", m.garbled)]
+             ("C02", m.c02), ("PARSE", m.garbled)]
   let bad := fs.filterMap fun (p, b) => b.map fun w => s!"[{p}] {w}"
   if bad.isEmpty then none else some (" ;; ".intercalate bad)
 
@@ -90,10 +102,16 @@ def srv : Family where
   step := srvStep
   monInit := srvMonInit
   monStep m toks :=
+    match toks with
+    | ["settled", "ok"] => m
+    | "settled" :: "stuck" :: cs =>
+        { m with c02 := m.c02.orElse fun _ => some ("nothing is woken yet work is left: " ++ " ".intercalate cs) }
+    | _ =>
     match parseObs toks with
     | some o => m.feed (.obs o)
     | none => { m with garbled := m.garbled.orElse fun _ => some ("unparsable obs: " ++ " ".intercalate toks) }
   monOp m toks :=
+    if toks == ["settle"] then m else
     match parseSOp toks with
     | some o => m.feed (.op o)
     | none => { m with garbled := m.garbled.orElse fun _ => some ("unparsable op: " ++ " ".intercalate toks) }
